@@ -264,8 +264,15 @@ def run(P, R):
         if isinstance(a, ast.Assign) and ast.unparse(a.targets[0]) in ('self.planned_jobs', 'self.stop_request'):
             fs = {tuple(f) for f in fm.at(a)}
             strat = [f[0].split('.')[-1] for f in fs if f[1] and 'StartingFailureStrategies.' in f[0] and '==' in f[0]]
-            R.require(len(strat) == 1 and ('process.rules.required', True) in fs,
-                      'process_failure: write %s not under required + one strategy' % ast.unparse(a))
+            if not (len(strat) == 1 and ('process.rules.required', True) in fs):
+                # a write shared by several strategies (or computed from the strategy): reported under each of them
+                for m_ in (strat or ['?']):
+                    writes.setdefault(m_, set()).add('%s=%s' % (ast.unparse(a.targets[0]), ast.unparse(a.value)))
+                cs = {c for f in fs if f[1] and ' in [' in f[0] and 'StartingFailureStrategies.' in f[0]
+                      for c in ('ABORT', 'STOP', 'CONTINUE') if 'StartingFailureStrategies.' + c in f[0]}
+                for m_ in cs:
+                    writes.setdefault(m_, set()).add('%s=%s' % (ast.unparse(a.targets[0]), ast.unparse(a.value)))
+                continue
             writes.setdefault(strat[0], set()).add('%s=%s' % (ast.unparse(a.targets[0]), ast.unparse(a.value)))
     members = P.enum_members('StartingFailureStrategies')
     R.require(sorted(members) == ['ABORT', 'CONTINUE', 'STOP'], 'StartingFailureStrategies members changed: %s' % members)
